@@ -845,41 +845,59 @@ Definition schema_of (aliases : list (string * string)) : schema_t :=
 
 (* ------------------------------------------------------------------------------ outputs *)
 
-Definition enc_str (s : string) : list Z :=
-  Z.of_nat (String.length s) :: map (fun c => Z.of_nat (nat_of_ascii c)) (list_ascii_of_string s).
-
-Definition enc_err (e : err) : list Z :=
-  match e with
-  | EDup id => 1%Z :: enc_str id
-  | ENotFound id => 2%Z :: enc_str id
-  | EKeyError k => 3%Z :: enc_str k
-  | EMissingKey k c i => 4%Z :: enc_str k ++ enc_str c ++ enc_str i
-  | EMissingId c => 5%Z :: enc_str c
-  | ENoId => [6%Z]
-  | ENoType id => 7%Z :: enc_str id
-  | EBadClass id => 8%Z :: enc_str id
-  | ENotObject => [9%Z]
-  | EIndices => [10%Z]
-  | EPlate => [11%Z]
-  | ECrash w => 12%Z :: enc_str w
-  | EFuel => [13%Z]
+(* Strings in the outputs: the position in a table of known strings supplied by the case file, or
+   (-1; length; character codes) when absent (printing long lists of numbers is what costs time). *)
+Fixpoint index_of (s : string) (tbl : list string) (i : Z) : option Z :=
+  match tbl with
+  | [] => None
+  | t :: r => if String.eqb s t then Some i else index_of s r (i + 1)%Z
   end.
 
-Definition enc_obj (no : nat * obj) : list Z :=
-  let (n, o) := no in
-  Z.of_nat n :: enc_str (o_cls o) ++ enc_str (o_id o) ++
-  Z.of_nat (List.length (o_kids o)) ::
-  flat_map (fun kn => enc_str (fst kn) ++ [Z.of_nat (snd kn)]) (o_kids o).
+Definition chars (s : string) : list Z :=
+  Z.of_nat (String.length s) :: map (fun c => Z.of_N (N_of_ascii c)) (list_ascii_of_string s).
 
-(* [1; #reg; (id, identity)*; #heap; objects*]  |  [0; error; #chain; ids*] *)
-Definition show {A} (r : res A) : list Z :=
-  match r with
-  | Ok _ st =>
-      1%Z :: Z.of_nat (List.length (st_reg st)) ::
-      flat_map (fun kn => enc_str (fst kn) ++ [Z.of_nat (snd kn)]) (st_reg st) ++
-      Z.of_nat (List.length (st_heap st)) :: flat_map enc_obj (st_heap st)
-  | Err e ch => 0%Z :: enc_err e ++ Z.of_nat (List.length ch) :: flat_map enc_str ch
-  end.
+Section Show.
+  Variable tbl : list string.
+
+  Definition enc_str (s : string) : list Z :=
+    match index_of s tbl 0%Z with
+    | Some i => [i]
+    | None => (-1)%Z :: chars s
+    end.
+
+  Definition enc_err (e : err) : list Z :=
+    match e with
+    | EDup id => 1%Z :: enc_str id
+    | ENotFound id => 2%Z :: enc_str id
+    | EKeyError k => 3%Z :: enc_str k
+    | EMissingKey k c i => 4%Z :: enc_str k ++ enc_str c ++ enc_str i
+    | EMissingId c => 5%Z :: enc_str c
+    | ENoId => [6%Z]
+    | ENoType id => 7%Z :: enc_str id
+    | EBadClass id => 8%Z :: enc_str id
+    | ENotObject => [9%Z]
+    | EIndices => [10%Z]
+    | EPlate => [11%Z]
+    | ECrash w => 12%Z :: enc_str w
+    | EFuel => [13%Z]
+    end.
+
+  Definition enc_obj (no : nat * obj) : list Z :=
+    let (n, o) := no in
+    Z.of_nat n :: enc_str (o_cls o) ++ enc_str (o_id o) ++
+    Z.of_nat (List.length (o_kids o)) ::
+    flat_map (fun kn => enc_str (fst kn) ++ [Z.of_nat (snd kn)]) (o_kids o).
+
+  (* [1; #reg; (id, identity)*; #heap; objects*]  |  [0; error; #chain; ids*] *)
+  Definition show {A} (r : res A) : list Z :=
+    match r with
+    | Ok _ st =>
+        1%Z :: Z.of_nat (List.length (st_reg st)) ::
+        flat_map (fun kn => enc_str (fst kn) ++ [Z.of_nat (snd kn)]) (st_reg st) ++
+        Z.of_nat (List.length (st_heap st)) :: flat_map enc_obj (st_heap st)
+    | Err e ch => 0%Z :: enc_err e ++ Z.of_nat (List.length ch) :: flat_map enc_str ch
+    end.
+End Show.
 
 (* fingerprints of whole documents (for comparing remove_comments / expand_plates results with the
    implementation's without shipping them back and forth): polynomial hash of the token stream *)
@@ -889,21 +907,22 @@ Fixpoint tok_json (j : json) : list Z :=
   | JBool b => [1%Z; if b then 1%Z else 0%Z]
   | JInt z => [2%Z; z]
   | JFlt z => [3%Z; z]
-  | JStr s => 4%Z :: enc_str s
+  | JStr s => 4%Z :: chars s
   | JArr l => 5%Z :: Z.of_nat (List.length l) ::
               (fix go (l : list json) : list Z := match l with [] => [] | x :: r => tok_json x ++ go r end) l
   | JObj kv => 6%Z :: Z.of_nat (List.length kv) ::
                (fix go (kv : list (string * json)) : list Z :=
-                  match kv with [] => [] | (k, v) :: r => enc_str k ++ tok_json v ++ go r end) kv
+                  match kv with [] => [] | (k, v) :: r => chars k ++ tok_json v ++ go r end) kv
   end.
 
 Definition fp_json (j : json) : Z :=
-  fold_left (fun h t => ((h * 1000003 + t + 1) mod 2305843009213693951)%Z) (tok_json j) 7%Z.
+  fold_left (fun h t => Z.land (31 * h + t + 1) 1152921504606846975%Z) (tok_json j) 7%Z.
 
 (* [fp (remove_comments data); outcome of expand_plates on it: 1 + fp | 2 parse error | 3 other exception] *)
 Definition fp_prepare (fuel : nat) (data : json) : list Z :=
-  fp_json (rc data) ::
-  match expand fuel (rc data) with
+  let r := rc data in
+  fp_json r ::
+  match expand fuel r with
   | inl j => [1%Z; fp_json j]
   | inr e => [if parse_error e then 2%Z else 3%Z; 0%Z]
   end.
